@@ -120,11 +120,13 @@ def schemaWFField (inArray : Bool) : Schema → Bool
         | some (.custom p) => p = id62Pattern && lr.isNone
         | _ => lr.isSome)
      else true)
-  | .enum d rules _ =>
+  | .enum d rules lr =>
     enumDeclWF d &&
     (match rules with
      | some r => enumRulesWF d r
-     | none => true)
+     | none => true) &&
+    -- inadmissible otherwise (compile error): default filters name options of the enum
+    enumFiltersWF d lr
   -- open finding class: the array annotation replaces the item's j5 annotation
   | .date rules _ => !(inArray && rules.isSome)
   | .decimal rules _ => !(inArray && rules.isSome)
